@@ -206,6 +206,8 @@ class RdmWorld(World):
         ctx.objects_touched.add(k)
         if k == "new":
             kind = op["kind"] if op["kind"] in self.config["kinds"] else self.config["kinds"][0]
+            if kind == "mp2" and getattr(self, "_mo0", None) is not None:
+                kind = "fci"            # MP2 presupposes canonical orbitals: not built once the molecule's orbitals were rotated
             try:
                 e = self._new_solver(kind)
             except Exception as ex:
